@@ -340,8 +340,25 @@ func (e *explorer) run(prefix []int, verbose bool) *X {
 		e.cfg.Body(x)
 	}()
 	e.started.Store(0)
+	if fdCheck {
+		// diagnostic (VERIF_FDCHECK=1): executions that leave the process with more descriptors than it had
+		if ents, err := os.ReadDir("/proc/self/fd"); err == nil {
+			if fdBase == 0 {
+				fdBase = len(ents)
+			} else if len(ents) > fdBase {
+				if f, err := os.OpenFile("/tmp/fdleak.log", os.O_APPEND|os.O_CREATE|os.O_WRONLY, 0o644); err == nil {
+					fmt.Fprintf(f, "%d -> %d descriptors after %s %v: %v\n", fdBase, len(ents), e.cfg.Name, prefix, x.notes)
+					f.Close()
+				}
+				fdBase = len(ents)
+			}
+		}
+	}
 	return x
 }
+
+var fdCheck = os.Getenv("VERIF_FDCHECK") != ""
+var fdBase int
 
 func (e *explorer) account(x *X) {
 	r := &e.res
